@@ -61,3 +61,64 @@ def run_bitmask(chk):
                        detail="`%s` combines values of different types %s in one bit mask" % (" ".join(fn.text(i).split())[:70], tys),
                        key="bitmask|%s|%d" % (fn.name.split("::")[-1], n))
     chk.floor(R + ":calls", n, 2)
+
+
+def run_gather_mask(chk):
+    R = "R-GATHER-MASK-WRITTEN"
+    chk.rule(R, "x86 query_rw_info contains a statement that marks the extra ({k}) register as written, and it is executed exactly under a test "
+                "that the memory operand's index register is a vector register: AVX-512 gathers and scatters clear their mask")
+    from .must import Must
+    unit = "asmjit/x86/x86instapi.cpp"
+    f = chk.facts(unit, funcs=r"asmjit::x86::InstInternal::query_rw_info$|asmjit::x86::InstInternal::rw_handle_avx512$|asmjit::x86::rw_handle_avx512$")
+    found = []
+    for fn in cfg.load_functions(f):
+        def edge_fx(b, si, atom, holds, fn=fn):
+            t = fn.text(atom)
+            if holds and "index_type" in t and ("kVec" in t or "is_vec" in t):
+                return [("vec-index",)]
+            x = fn.e(atom)
+            if x and x["k"] == "mcall" and x.get("cn") in ("has_vec_index", "is_vm") and holds:
+                return [("vec-index",)]
+            return ()
+        m = None
+        for i, x in fn.calls(lambda x: x.get("cn") == "add_op_flags" and x.get("obj") and "_extra_reg" in fn.text(x["obj"])):
+            a = fn.e(fn.strip(x["args"][0])) if x.get("args") else None
+            t = fn.text(x["args"][0]) if x.get("args") else ""
+            if not ("kWrite" in t or "kRW" in t or "kX" == t.strip()):
+                continue
+            if m is None:
+                m = Must(fn, None, edge_fx)
+            ok = ("vec-index",) in (m.before(i) or frozenset())
+            if not ok:
+                # the test may be one conjunct of the enclosing if-condition (clang merges the false edges of a nested `&&` chain)
+                par = fn.parent_map()
+                p = par.get(i)
+                hops = 0
+                while p is not None and hops < 40 and not ok:
+                    px = fn.e(p)
+                    if px and px["k"] == "s:IfStmt" and px.get("cond"):
+                        conj, stack = [], [px["cond"]]
+                        while stack:
+                            c = stack.pop()
+                            cx = fn.e(c)
+                            while cx and cx["k"] in ("paren", "cast"):
+                                c = cx["sub"]
+                                cx = fn.e(c)
+                            if cx and cx["k"] == "binop" and cx["op"] == "&&":
+                                stack += [cx["lhs"], cx["rhs"]]
+                            else:
+                                conj.append(c)
+                        # only the then-branch counts: the call must not be in the else part
+                        in_then = len(px.get("ch", [])) >= 2 and i in set(fn.walk(px["ch"][1]))
+                        if in_then and any("index_type" in fn.text(c) and ("kVec" in fn.text(c) or "is_vec" in fn.text(c)) for c in conj):
+                            ok = True
+                    p = par.get(p)
+                    hops += 1
+            found.append((fn, i, ok))
+    chk.ob(R, "x86|extra-reg-written-for-vector-index", any(ok for _, _, ok in found), loc=unit,
+           detail="no statement marks the extra register as written under a vector-index test (%d candidate statements): gathers/scatters would "
+                  "report their mask as preserved" % len(found), key="gathermask|x86")
+    for fn, i, ok in found:
+        chk.ob(R, "x86|write-only-under-vector-index@%d" % fn.line_of(i) if False else "x86|write-flag-site#%d" % (found.index((fn, i, ok)) + 1), ok, loc=fn.loc(i),
+               detail="the extra register is marked written on a path that did not test for a vector index: ordinary {k}-masked instructions do not write their mask",
+               key="gathermask|x86|site")
